@@ -37,8 +37,6 @@ Definition s_emit (s : sst) (w : watch) (flags : Z) : sst :=
   mkS (s_pq s) (s_def s) (s_ios s) (s_sigs s) (s_procs s) (s_next s) (s_now s) (s_iter s)
       (OEv (mkE (w_id w) (w_kind w) flags (s_iter s) (s_now s) (w_x w)) :: s_log s).
 
-Definition s_notify (s : sst) (w : watch) : sst :=
-  if w_unbind w then s_emit s w EV_UNBIND else s.
 
 (* only timers and deferred callbacks are ever run by the iteration *)
 Definition s_take_runnable (s : sst) (id : Z) : option (watch * sst) :=
@@ -68,8 +66,9 @@ Definition s_take (s : sst) (id : Z) : option (watch * sst) :=
 
 Section WithEnv.
 Variable env : Z -> list action.
+Variable uenv : Z -> list action.   (* what a callback registers when it is notified of its cancellation *)
 
-Definition s_action (s : sst) (a : action) : sst :=
+Definition s_reg (s : sst) (a : action) : sst :=
   let fresh k fl cb x := mkW (s_next s) k (f_unbind fl) (f_destroy fl) cb x in
   match a with
   | ATimer d fl cb =>
@@ -88,8 +87,18 @@ Definition s_action (s : sst) (a : action) : sst :=
       mkS (s_pq s) (s_def s) (s_ios s) (s_sigs s) (insert_watch (f_first fl) (s_procs s) (fresh KProc fl cb 0))
           (s_next s + 1) (s_now s) (s_iter s) (s_log s)
   | AWatch _ _ _ _ => s
-  | ACancel id => match s_take s id with Some (w, s') => s_notify s' w | None => s end
+  | ACancel _ => s
   | ANop => s
+  end.
+
+(* the UNBIND notification: the callback may register new watches (fresh identities) *)
+Definition s_notify (s : sst) (w : watch) : sst :=
+  if w_unbind w then fold_left s_reg (uenv (w_cb w)) (s_emit s w EV_UNBIND) else s.
+
+Definition s_action (s : sst) (a : action) : sst :=
+  match a with
+  | ACancel id => match s_take s id with Some (w, s') => s_notify s' w | None => s end
+  | _ => s_reg s a
   end.
 
 Definition s_actions (s : sst) (l : list action) : sst := fold_left s_action l s.
@@ -160,7 +169,37 @@ Definition q_emit (s : qst) (w : watch) (flags : Z) : qst :=
   mkQ (q_pq s) (q_def s) (q_snap s) (q_ios s) (q_sigs s) (q_procs s) (q_next s) (q_now s) (q_iter s)
       (OEv (mkE (w_id w) (w_kind w) flags (q_iter s) (q_now s) (w_x w)) :: q_log s).
 
-Definition q_notify (s : qst) (w : watch) : qst := if w_unbind w then q_emit s w EV_UNBIND else s.
+Section Queue.
+Variable env : Z -> list action.
+Variable uenv : Z -> list action.
+
+Definition q_reg (s : qst) (a : action) : qst :=
+  let fresh k fl cb x := mkW (q_next s) k (f_unbind fl) (f_destroy fl) cb x in
+  match a with
+  | ATimer d fl cb =>
+      mkQ (pq_insert (fresh KTimer fl cb (q_now s + d)) (q_pq s)) (q_def s) (q_snap s) (q_ios s) (q_sigs s) (q_procs s)
+          (q_next s + 1) (q_now s) (q_iter s) (q_log s)
+  | ALater fl cb =>
+      mkQ (q_pq s) (insert_watch (f_first fl) (q_def s) (fresh KLater fl cb 0)) (q_snap s) (q_ios s) (q_sigs s) (q_procs s)
+          (q_next s + 1) (q_now s) (q_iter s) (q_log s)
+  | AWatch KIo _ fl cb =>
+      mkQ (q_pq s) (q_def s) (q_snap s) (insert_watch (f_first fl) (q_ios s) (fresh KIo fl cb 0)) (q_sigs s) (q_procs s)
+          (q_next s + 1) (q_now s) (q_iter s) (q_log s)
+  | AWatch KSig x fl cb =>
+      mkQ (q_pq s) (q_def s) (q_snap s) (q_ios s) (insert_watch (f_first fl) (q_sigs s) (fresh KSig fl cb x)) (q_procs s)
+          (q_next s + 1) (q_now s) (q_iter s) (q_log s)
+  | AWatch KProc _ fl cb =>
+      mkQ (q_pq s) (q_def s) (q_snap s) (q_ios s) (q_sigs s) (insert_watch (f_first fl) (q_procs s) (fresh KProc fl cb 0))
+          (q_next s + 1) (q_now s) (q_iter s) (q_log s)
+  | AWatch _ _ _ _ => s
+  | ACancel _ => s
+  | ANop => s
+  end.
+
+Definition q_regs (s : qst) (l : list action) : qst := fold_left q_reg l s.
+
+Definition q_notify (s : qst) (w : watch) : qst :=
+  if w_unbind w then q_regs (q_emit s w EV_UNBIND) (uenv (w_cb w)) else s.
 
 Definition q_cancel (s : qst) (id : Z) : qst :=
   match find_remove id (q_pq s) with
@@ -183,30 +222,10 @@ Definition q_cancel (s : qst) (id : Z) : qst :=
   | None => s
   end end end end end end.
 
-Section Queue.
-Variable env : Z -> list action.
-
 Definition q_action (s : qst) (a : action) : qst :=
-  let fresh k fl cb x := mkW (q_next s) k (f_unbind fl) (f_destroy fl) cb x in
   match a with
-  | ATimer d fl cb =>
-      mkQ (pq_insert (fresh KTimer fl cb (q_now s + d)) (q_pq s)) (q_def s) (q_snap s) (q_ios s) (q_sigs s) (q_procs s)
-          (q_next s + 1) (q_now s) (q_iter s) (q_log s)
-  | ALater fl cb =>
-      mkQ (q_pq s) (insert_watch (f_first fl) (q_def s) (fresh KLater fl cb 0)) (q_snap s) (q_ios s) (q_sigs s) (q_procs s)
-          (q_next s + 1) (q_now s) (q_iter s) (q_log s)
-  | AWatch KIo _ fl cb =>
-      mkQ (q_pq s) (q_def s) (q_snap s) (insert_watch (f_first fl) (q_ios s) (fresh KIo fl cb 0)) (q_sigs s) (q_procs s)
-          (q_next s + 1) (q_now s) (q_iter s) (q_log s)
-  | AWatch KSig x fl cb =>
-      mkQ (q_pq s) (q_def s) (q_snap s) (q_ios s) (insert_watch (f_first fl) (q_sigs s) (fresh KSig fl cb x)) (q_procs s)
-          (q_next s + 1) (q_now s) (q_iter s) (q_log s)
-  | AWatch KProc _ fl cb =>
-      mkQ (q_pq s) (q_def s) (q_snap s) (q_ios s) (q_sigs s) (insert_watch (f_first fl) (q_procs s) (fresh KProc fl cb 0))
-          (q_next s + 1) (q_now s) (q_iter s) (q_log s)
-  | AWatch _ _ _ _ => s
   | ACancel id => q_cancel s id
-  | ANop => s
+  | _ => q_reg s a
   end.
 
 Definition q_actions (s : qst) (l : list action) : qst := fold_left q_action l s.
@@ -297,9 +316,9 @@ Definition bag_eqb (l1 l2 : list obs) : bool :=
 (* The property fixes the order of everything that happens while the loop runs, but not
    the order in which destruction visits the remaining watches: the part of the
    observation that belongs to destruction is compared as a bag. *)
-Definition spec_checkb (env : Z -> list action) (ops : list op) (o : list obs) : bool :=
-  let sp := spec_run env ops in
-  list_eqb obs_eqb sp (qspec_run env ops) &&     (* the two formulations agree on this case *)
+Definition spec_checkb (env uenv : Z -> list action) (ops : list op) (o : list obs) : bool :=
+  let sp := spec_run env uenv ops in
+  list_eqb obs_eqb sp (qspec_run env uenv ops) &&     (* the two formulations agree on this case *)
   list_eqb obs_eqb (filter (fun x => negb (in_destroy x)) sp) (filter (fun x => negb (in_destroy x)) o) &&
   list_eqb (fun a b => Bool.eqb (in_destroy a) (in_destroy b)) sp o &&
   bag_eqb (filter in_destroy sp) (filter in_destroy o).
